@@ -155,6 +155,7 @@ theorem build_form {type_ : Cls} {ys : List V} {v' : V} (h : build type_ ys = .o
   · cases h
   · cases h
   · cases h
+  · cases h
 
 /-- re-building an already built container gives the same container -/
 theorem build_again {type_ : Cls} {ys : List V} {v' : V} (h : build type_ ys = .ok v')
